@@ -119,7 +119,7 @@ def shards(tier, seed):
             out.append({"kind": "width", "k": [2, 2], "len": L["width"], "dtypes": [d1, d2], "variant": v0,
                         "embed": seed % 4, "w": 200})
     out.append({"kind": "refuse", "variant": v0, "embed": seed % 4, "w": 1})
-    for sub in ("flavours", "library", "mirror", "alias", "counts", "long"):
+    for sub in ("flavours", "library", "mirror", "alias", "counts", "long", "palette", "identity", "resize", "derived"):
         out.append({"kind": "audit", "sub": sub, "variant": v0, "embed": seed % 4, "w": 50})
     out.sort(key=lambda s: -s["w"])
     for s in out:
@@ -625,6 +625,215 @@ def audit_long(ctx, shard):
                 ctx.outcome(("long", n, m, mode, opt, len(res)))
 
 
+# ---------------------------------------------------------------------------
+# second dimension audit
+# ---------------------------------------------------------------------------
+COMBO_FAMS = ["asymneg", "largeneg", "asymlarge", "zerorow"]
+
+
+def palette_envs():
+    """B: every value a VERIF_SEED could select (code embeddings of the small and the 300-symbol alphabet, matrix
+    variants) at shallow depth with every seed; C: matrices that combine two awkward features."""
+    from mc.models import align_inputs as I
+
+    envs = []
+    for e in range(4):
+        envs.append(I.Env(2, 2, "asym", 0, e))
+        envs.append(I.Env(2, 2, "asym", 1, e, "uint16", "uint16"))
+        envs.append(I.Env(2, 3, "rect", e % 3, e, "uint16", "uint8"))      # wide codes AND different alphabets
+    for fam in FAMS + COMBO_FAMS:
+        for v in range(3):
+            envs.append(I.Env(2, 2, fam, v, v))
+    for fam in RECT_FAMS:
+        for v in range(3):
+            envs.append(I.Env(2, 3, fam, v, v + 1))
+    return envs
+
+
+def audit_palette(ctx, shard):
+    from mc.models import align_inputs as I
+
+    for env in palette_envs():
+        for l1 in I.sequences(env.k1, 2, 1):
+            for l2 in I.sequences(env.k2, 2, 1):
+                for gap in I.GAPS:
+                    for mode in MODES:
+                        check_call(ctx, env, l1, l2, gap, mode, 1000)
+
+
+def audit_identity(ctx, shard):
+    """A: every returned Alignment is a new object with its own `sequences` list and trace; re-binding edits of one
+    result do not reach the other results, the inputs or a transposed matrix."""
+    from mc.models import align_audit as AU
+    from mc.models import align_inputs as I
+
+    for fam in ("zero", "std"):
+        env = I.Env(2, 2, fam, shard["variant"], shard["embed"])
+        mt = env.matrix.transpose()
+        ctx.ev(1, 1)
+        if mt is env.matrix or mt.score_matrix() is env.matrix.score_matrix():
+            ctx.violation("SubstitutionMatrix.transpose|returns_operand|symmetric_matrix", "transpose() of a symmetric "
+                          "matrix returned the matrix itself", {"kind": "identity", **env.describe()})
+        for l1 in I.sequences(2, 2, 1):
+            for l2 in I.sequences(2, 3, 1):
+                for gap in AUDIT_GAPS:
+                    for mode in MODES:
+                        ctx.ev(1, 1)
+                        case = {"kind": "identity", **env.describe(), "s1": list(l1), "s2": list(l2),
+                                "gap": I.gap_json(gap), "mode": mode}
+                        cls = "%s|%s" % (mode, I.gap_class(gap))
+                        s1, s2 = env.seq(1, l1), env.seq(2, l2)
+                        before = AU.snapshot(env, l1, l2)
+                        res = _call(env, l1, l2, gap, mode)
+                        ref = AU.result_key(res)
+                        if len({id(a) for a in res}) != len(res) or len({id(a.sequences) for a in res}) != len(res):
+                            ctx.violation("align_optimal|results_share_object|%s" % cls, "two returned alignments are the "
+                                          "same object / share their `sequences` list", case)
+                            continue
+                        first = res[0]
+                        first.sequences.append("edited")
+                        first.sequences[0] = None
+                        first.trace = None
+                        first.score = None
+                        ok = all(len(a.sequences) == 2 and a.sequences[0] is s1 and a.sequences[1] is s2
+                                 for a in res[1:])
+                        if not ok or AU.result_key(res[1:]) != ref[1:]:
+                            ctx.violation("align_optimal|edit_of_one_result_reaches_another|%s" % cls,
+                                          "re-binding edits of the first returned alignment changed another one", case)
+                        elif AU.snapshot(env, l1, l2) != before or env.seq(1, l1) is not s1:
+                            ctx.violation("align_optimal|edit_of_result_reaches_input|%s" % cls,
+                                          "re-binding edits of a returned alignment changed an input", case)
+                        elif AU.result_key(_call(env, l1, l2, gap, mode)) != ref:
+                            ctx.violation("align_optimal|second_call_differs|%s" % cls,
+                                          "the same call gives another result after a result was edited", case)
+                        ctx.outcome(("identity", len(res)))
+
+
+RESIZE_PATH = [(0, 1), (0, 1, 1), (1,), (1, 0, 1), (0, 0), (1, 1, 0, 1), (0,)]
+
+
+def audit_resize(ctx, shard):
+    """D: the same Sequence / Alignment objects are given contents of another length (code and symbols setters,
+    trace / sequences attributes) between calls, after reads that could cache something."""
+    import biotite.sequence as bseq
+    import biotite.sequence.align as balign
+    import numpy as np
+
+    from mc.models import align as A
+    from mc.models import align_audit as AU
+    from mc.models import align_inputs as I
+
+    env = I.Env(2, 2, "asym", shard["variant"], shard["embed"])
+    s1, s2 = bseq.GeneralSequence(env.alph1), bseq.GeneralSequence(env.alph2)
+    holder = None
+    for gap in AUDIT_GAPS:
+        for mode in MODES:
+            for step, l1 in enumerate(RESIZE_PATH):
+                l2 = RESIZE_PATH[(step * 3 + 1) % len(RESIZE_PATH)]
+                ctx.ev(2, 1)
+                case = {"kind": "resize", **env.describe(), "step": step, "s1": list(l1), "s2": list(l2),
+                        "gap": I.gap_json(gap), "mode": mode}
+                cls = "%s|%s" % (mode, I.gap_class(gap))
+                if step % 2:
+                    s1.code = np.array(env.codes(1, l1), dtype=np.uint8)
+                    s2.symbols = list(env.codes(2, l2))
+                else:
+                    s1.symbols = list(env.codes(1, l1))
+                    s2.code = np.array(env.codes(2, l2), dtype=np.uint8)
+                len(s1), str(s2), s1.get_symbol_frequency()      # reads between the uses
+                got = AU.result_key(balign.align_optimal(s1, s2, env.matrix, gap_penalty=gap, **_mode_kwargs(mode)))
+                want = AU.result_key(_call(env, l1, l2, gap, mode))
+                if got != want:
+                    ctx.violation("align_optimal|reused_sequence_object_differs|%s" % cls, "a Sequence object that held "
+                                  "a sequence of another length before gives another result than a fresh one", case,
+                                  want[:2], got[:2])
+                    continue
+                # the same Alignment object takes over the first trace of every step
+                fresh = _call(env, l1, l2, gap, mode)[0]
+                if holder is None:
+                    holder = _call(env, l1, l2, gap, mode)[0]
+                len(holder), str(holder), holder.get_gapped_sequences()
+                holder.sequences = [env.seq(1, l1), env.seq(2, l2)]
+                holder.trace = fresh.trace.copy()
+                holder.score = fresh.score
+                tp = mode != "semi"
+                a = (int(balign.score(holder, env.matrix, gap, tp)), str(holder), len(holder),
+                     holder.get_gapped_sequences())
+                b = (int(balign.score(fresh, env.matrix, gap, tp)), str(fresh), len(fresh), fresh.get_gapped_sequences())
+                m = A.score_cols(I.trace_cols(fresh.trace), env.codes(1, l1), env.codes(2, l2), env.mat, gap, tp)
+                if a != b or a[0] != m:
+                    ctx.violation("Alignment|reused_object_differs|%s" % cls, "an Alignment object whose trace / sequences "
+                                  "were replaced by ones of another length scores / prints differently from a fresh one",
+                                  case, [b[0], m], a[0])
+                ctx.outcome(("resize", step, a[0]))
+
+
+def audit_derived(ctx, shard):
+    """E: objects the library hands out as inputs - derived sequences (through the complete oracle), positional
+    matrix + sequences (same result as the originals), sliced / filtered / trimmed alignments into align.score()."""
+    import biotite.sequence.align as balign
+    import numpy as np
+
+    from mc.models import align as A
+    from mc.models import align_audit as AU
+    from mc.models import align_inputs as I
+
+    audit_flavours(ctx, AU.derived_envs(shard["variant"], shard["embed"]), 2)
+    for fam in ("asym", "zero"):
+        env = I.Env(2, 2, fam, shard["variant"], shard["embed"])
+        for l1 in I.sequences(2, 3, 1):
+            for l2 in I.sequences(2, 2, 1):
+                c1, c2 = env.codes(1, l1), env.codes(2, l2)
+                pm, p1, p2 = env.matrix.as_positional(env.seq(1, l1), env.seq(2, l2))
+                for gap in AUDIT_GAPS:
+                    for mode in MODES:
+                        ctx.ev(2, 1)
+                        case = {"kind": "derived", **env.describe(), "s1": list(l1), "s2": list(l2),
+                                "gap": I.gap_json(gap), "mode": mode}
+                        cls = "%s|%s" % (mode, I.gap_class(gap))
+                        res = _call(env, l1, l2, gap, mode)
+                        ref = AU.result_key(res)
+                        try:
+                            got = AU.result_key(balign.align_optimal(p1, p2, pm, gap_penalty=gap, max_number=1000,
+                                                                     **_mode_kwargs(mode)))
+                        except Exception as e:  # noqa: BLE001
+                            ctx.violation("align_optimal|positional_exception_%s|%s" % (type(e).__name__, cls),
+                                          "as_positional() output refused", case, None, str(e)[:100])
+                            continue
+                        if got != ref:
+                            ctx.violation("align_optimal|positional_result_differs|%s" % cls, "aligning the positional "
+                                          "equivalents of as_positional() gives another result", case, ref[:2], got[:2])
+                        # derived alignments -> align.score()
+                        for a in res[:2]:
+                            k = a.trace.shape[0]
+                            derived = [("slice", a[i:j]) for i in range(k) for j in range(i + 1, k + 1)]
+                            if k:
+                                mask = np.arange(k) % 2 == 0
+                                derived.append(("mask", a[mask]))
+                                derived.append(("index", a[np.arange(0, k, 2)]))
+                                try:
+                                    derived.append(("trimmed", balign.remove_terminal_gaps(a)))
+                                except Exception:  # noqa: BLE001
+                                    pass
+                            for how, d in derived:
+                                t = I.trace_cols(d.trace)
+                                for tp in (True, False):
+                                    if not tp and (all(c[0] == -1 for c in t) or all(c[1] == -1 for c in t)):
+                                        continue   # terminal gaps undefined without symbols in a row
+                                    ctx.ev(1, 0)
+                                    want = A.score_cols(t, c1, c2, env.mat, gap, tp)
+                                    try:
+                                        sc = int(balign.score(d, env.matrix, gap, tp))
+                                    except Exception as e:  # noqa: BLE001
+                                        sc = "raised " + type(e).__name__
+                                    if sc != want:
+                                        ctx.violation("align.score|derived_alignment_%s|%s" % (how, I.gap_class(gap)),
+                                                      "align.score() of an alignment obtained by %s differs from the "
+                                                      "documented model" % how, {**case, "trace": [list(c) for c in t],
+                                                                                  "terminal_penalty": tp}, want, sc)
+                        ctx.outcome(("derived", ref[0][0] if ref else None))
+
+
 def run_audit(shard, ctx):
     from mc.models import align_audit as AU
 
@@ -641,6 +850,14 @@ def run_audit(shard, ctx):
         audit_counts(ctx, shard)
     elif sub == "long":
         audit_long(ctx, shard)
+    elif sub == "palette":
+        audit_palette(ctx, shard)
+    elif sub == "identity":
+        audit_identity(ctx, shard)
+    elif sub == "resize":
+        audit_resize(ctx, shard)
+    elif sub == "derived":
+        audit_derived(ctx, shard)
 
 
 def crash_class(case):
@@ -654,9 +871,10 @@ def replay(case, ctx):
 
     if case.get("kind") == "mutated":
         return
-    if case.get("kind") in ("mirror", "alias", "long"):
+    if case.get("kind") in ("mirror", "alias", "long", "identity", "resize", "derived"):
         sh = {"variant": case["variant"], "embed": case["embed"]}
-        {"mirror": audit_mirror, "alias": audit_alias, "long": audit_long}[case["kind"]](ctx, sh)
+        {"mirror": audit_mirror, "alias": audit_alias, "long": audit_long, "identity": audit_identity,
+         "resize": audit_resize, "derived": audit_derived}[case["kind"]](ctx, sh)
         return
     from mc.models import align_audit as AU
 
